@@ -379,6 +379,10 @@ func c9check(ip *interp.Interp, c *c9case) (key, detail string) {
 		{"len", "m.len", fmt.Sprint(len(ordered))}, {"iteration", "m=@{|k, v| [k, v]}", inspList(its)},
 		{"cross: keys.len == values.len == items.len == A.len == len", "[m.keys.len, m.values.len, m.items.len, m.A.len] == [m.len, m.len, m.len, m.len]", "true"},
 		{"cross: m[keys[i]] == values[i]", "m.keys=@{|k| m[k]} == m.values", "true"},
+		// maps built by the library (a list chain digesting pairs into a map, Map#digest, keyBy) follow the same key rules
+		{"digest round trip", "m.A@(%{}){|k, v| [k, v]} == m", "true"},
+		{"digest of repeated pairs keeps the first of equal keys", "[(m.A + m.A.rev)@(%{}){|k, v| [k, v]}.len, %{}.digest(m.A + m.A).len, (m.A + m.A)@(%{}){|k, v| [k, v]} == m]", fmt.Sprintf("[%d, %d, true]", len(ordered), len(ordered))},
+		{"keyBy over repeated keys", "(m.keys + m.keys).keyBy {|k| k}.len", fmt.Sprint(len(ordered))},
 	} {
 		if k, d := expect(t.acc, t.expr, t.want); k != "" {
 			return k, d
